@@ -195,9 +195,8 @@ Print Assumptions C20_id_kinds.
 (* (e) THREADED COUNTER INVARIANT of the UniqueNameGenerator: decimal printing is injective, and for ANY start state and ANY
    sequence of tokens the ids make_unique hands out for `token ++ "-n"` (what type_info.j2 passes for every nesting occurrence,
    in call order) are pairwise distinct -- and distinct from every id handed out before (call_seq_inv).
-   NOT proved: NoDup of the complete id list of a page (that the emitter's nesting occurrences ARE such a sequence interleaved
-   with the type / namespace / sidebar ids, each emitted once): class disjointness (d), per-class injectivity (a, ns) and this
-   invariant are the ingredients; the multiplicity part stays with the oracle rule `dupid`. *)
+   This invariant, the exact shape of the emitter's id list (plain ids interleaved with ONE such sequence, emit_ty_exact /
+   emit_ns_exact / emit_sidebar_exact) and the disjointness of the id classes give C20_page_ids_nodup below. *)
 Theorem C20_make_unique_sequence_nodup : forall st toks, NoDup (snd (mu_seq st toks)).
 Proof. intros st toks. exact (make_unique_sequence_nodup st toks (proj2 id_scheme_now)). Qed.
 Print Assumptions C20_make_unique_sequence_nodup.
@@ -205,6 +204,33 @@ Print Assumptions C20_make_unique_sequence_nodup.
 Theorem C20_dec_of_N_inj : forall a b, dec_of_N a = dec_of_N b -> a = b.
 Proof. exact dec_of_N_inj. Qed.
 Print Assumptions C20_dec_of_N_inj.
+
+(* (f) PAGE-LEVEL NoDup: ALL ids of a namespace page (the two static ids of the modelled regions, the _sidebar ids, namespace
+   ids, type ids and every nesting occurrence) are pairwise distinct -- for every configuration with autoescape off in the three
+   templates involved, every generator start (ung_reset is what ns_page uses) and every namespace tree whose namespaces have
+   distinct dash-free names and whose listed types are composites with distinct (name, major, minor), dash-free names and
+   versions in 0..255 (pydsdl guarantees; `_` pseudo types are not listed).  Fixed id scheme (pinned by C20_fix_state_now). *)
+Theorem C20_page_ids_nodup :
+  forall cf n,
+    ae_ti cf = false -> ae_ni cf = false -> ae_sb cf = false ->
+    tops_ok n = true -> types_ok_ns n ->
+    (forall c, In c (all_listed n) -> no_dash (ti_full_name (ci_t c)) = true) -> NoDup (map tkey (all_listed n)) ->
+    (forall n', In n' (all_ns n) -> no_dash (ns_name n') = true) -> NoDup (map ns_name (all_ns n)) ->
+    NoDup (page_ids cf n).
+Proof. exact page_ids_nodup_full. Qed.
+Print Assumptions C20_page_ids_nodup.
+
+(* non-vacuity: the hypotheses hold of the tree a / a.b / a.b.c / a.b_c (the former collision witness), and the model computes
+   pairwise distinct ids for it and for the T v1.1 / v1.10 witness *)
+Example C20_page_ids_nodup_premises :
+  tops_ok w_site_nsdup = true /\ types_ok_ns w_site_nsdup /\ NoDup (map ns_name (all_ns w_site_nsdup))
+  /\ (forall n', In n' (all_ns w_site_nsdup) -> no_dash (ns_name n') = true)
+  /\ nodup_str (page_ids faithful_cfg w_site_nsdup) = true /\ nodup_str (page_ids faithful_cfg w_site_collision) = true.
+Proof.
+  split; [vm_compute; reflexivity|]. split; [cbn; repeat split; first [exact I | contradiction]|]. split.
+  - cbn. repeat constructor; cbn; intuition discriminate.
+  - split; [|split; vm_compute; reflexivity]. intros n' H. cbn in H. repeat (destruct H as [<-|H]; [vm_compute; reflexivity|]). destruct H.
+Qed.
 
 (* NAMESPACE ids ('-'-joined components followed by --ns, landed 5a15038; was finding F-HTML-NS-ID-COLLISION): injective on dash-free
    names and a class of their own *)
